@@ -309,3 +309,107 @@ groups.group(id="C05.schemes.storage", prop="C05", kind="K5", functions=["microj
 # ---- fixed probes (known deviations are listed in /verif/known_findings.json and reported as KNOWN-FINDING) ------------------
 PROBES_C05 = [('catch-parameter-scope', 'var e = 1; try { throw 2 } catch (e) { } e', 1), ('nested-labels-on-one-loop', 'var n = 0; a: b: while (n < 2) { n++; continue a; } n', 2)]
 groups.register_probes("C05", PROBES_C05)
+
+
+# =======================================================================================================================
+# K1: the iterators behind for-of and for-in, for every array / key list / position
+# =======================================================================================================================
+from pyvc.api import *      # noqa: E402
+
+
+def c_forof_next_array(it: Obj("ForOfIterator"), arr: Obj("JSArray"), idx: IntRange(0, 2 ** 31)):
+    """ForOfIterator.next over an array: the element is read from the array AS IT IS NOW (what the loop body pushed is
+    visited, what it removed is not), the position advances by one, and the end is reported exactly when the position
+    has reached the array's current length; the array is not touched"""
+    it.values = arr
+    it.index = idx
+    n = len(arr._elements)
+    snap = heap_snapshot()
+    r = outcome(REAL, it)
+    check("never-raises", r[0] == "ret")
+    if idx >= n:
+        check("done-at-the-current-end", r[1][1] is True)
+        check("position-stays", it.index == idx)
+    else:
+        check("not-done", r[1][1] is False)
+        check("yields-the-current-element", same_value(r[1][0], arr._elements[idx]))
+        check("advances-by-one", it.index == idx + 1)
+    check("iterates-the-same-array", same_ref(it.values, arr))
+    check("nothing-else-changes", heap_unchanged(snap, (it, "index")))
+
+
+def c_forof_next_list(it: Obj("ForOfIterator"), lst: ValList, idx: IntRange(0, 2 ** 31)):
+    """ForOfIterator.next over a fixed list of values (the characters of a string, the elements of a typed array)"""
+    it.values = lst
+    it.index = idx
+    n = len(lst)
+    r = outcome(REAL, it)
+    check("never-raises", r[0] == "ret")
+    if idx >= n:
+        check("done-at-the-end", r[1][1] is True)
+        check("position-stays", it.index == idx)
+    else:
+        check("not-done", r[1][1] is False)
+        check("yields-the-element", same_value(r[1][0], lst[idx]))
+        check("advances-by-one", it.index == idx + 1)
+
+
+def _native_iter(cls, name):
+    def make():
+        import microjs.vm as V_
+        return getattr(getattr(V_, cls), name)
+    return make
+
+
+register(c_forof_next_array, id="C05.ForOfIterator.next.array", prop="C05", target=method("microjs.vm", "ForOfIterator.next"), native=_native_iter("ForOfIterator", "next"))
+register(c_forof_next_list, id="C05.ForOfIterator.next.list", prop="C05", target=method("microjs.vm", "ForOfIterator.next"), native=_native_iter("ForOfIterator", "next"))
+
+
+def _own(obj, key):
+    return key in obj._properties or key in obj._getters or key in obj._setters
+
+
+@writes("index")
+def inv_forin_next(self):
+    idx0 = ghost_get("idx0", None)
+    j = ghost_get("j", None)
+    keys = ghost_get("keys", None)
+    obj = ghost_get("obj", None)
+    if not (idx0 <= self.index and self.index <= len(keys)):
+        return False
+    if not heap_unchanged(loop_entry(), (self, "index")):      # (the loop moves this iterator's position and nothing else)
+        return False
+    # every key passed over so far is one the object no longer has
+    return not (idx0 <= j and j < self.index) or not _own(obj, keys[j])
+
+
+def c_forin_next(it: Obj("ForInIterator"), obj: Obj("JSObject"), keys: ValList, idx: IntRange(0, 2 ** 31), j: IntRange(0, 2 ** 31)):
+    """ForInIterator.next: it yields the next key (in the order fixed when the loop started) that the object STILL has
+    as an own property -- keys deleted meanwhile are passed over, every one of them (j is any position) -- advances past
+    it, and reports the end when no such key is left; the object and the key list are not touched"""
+    assume(elems_are(keys, "str"))
+    assume(idx <= len(keys))
+    it.keys = keys
+    it.obj = obj
+    it.index = idx
+    ghost_set("idx0", idx)
+    ghost_set("j", j)
+    ghost_set("keys", keys)
+    ghost_set("obj", obj)
+    snap = heap_snapshot()
+    r = outcome(REAL, it)
+    check("never-raises", r[0] == "ret")
+    if r[1][1] is True:
+        check("done-means-the-list-is-exhausted", it.index == len(keys))
+        check("done-means-no-live-key-was-left", not (idx <= j and j < len(keys)) or not _own(obj, keys[j]))
+    else:
+        k = it.index - 1
+        check("yields-a-key-of-the-list-at-or-after-the-position", idx <= k and k < len(keys) and same_value(r[1][0], keys[k]))
+        check("the-key-is-still-an-own-property", _own(obj, keys[k]))
+        check("every-key-passed-over-is-gone", not (idx <= j and j < k) or not _own(obj, keys[j]))
+    check("nothing-else-changes", heap_unchanged(snap, (it, "index")))
+
+
+_FIN = "microjs.vm:ForInIterator.next"
+register(c_forin_next, id="C05.ForInIterator.next", prop="C05", target=method("microjs.vm", "ForInIterator.next"), native=_native_iter("ForInIterator", "next"),
+         invariants={(_FIN, 0): inv_forin_next})
